@@ -210,20 +210,23 @@
             }
         }
         // inheritance cycles: every choice of which members define blocks
-        for len in 1..=3usize { for mask in 0..(1u32 << len) { for entry in 0..3u8 {
+        for len in 1..=3usize { for mask in 0..(1u32 << len) { for entry in 0..3u8 { for joined in [false, true] {
             let mut env = Environment::new();
+            // with a path-join callback the name written in `extends` differs from the name the template is stored under
+            let dir = if joined { "dir/" } else { "" };
+            if joined { env.set_path_join_callback(|name, _parent| format!("dir/{}", name.trim_start_matches("dir/")).into()); }
             for i in 0..len {
                 let parent = format!("c{}", (i + 1) % len);
                 let blocks = if mask & (1 << i) != 0 { format!("{{% block x %}}x{i}{{% endblock %}}") } else { String::new() };
-                env.add_template_owned(format!("c{i}"), format!("{{% extends '{parent}' %}}t{i}{blocks}")).unwrap();
+                env.add_template_owned(format!("{dir}c{i}"), format!("{{% extends '{parent}' %}}t{i}{blocks}")).unwrap();
             }
-            env.add_template("child_blocks", "{% extends 'c0' %}{% block x %}child{% endblock %}").unwrap();
-            env.add_template("child_plain", "{% extends 'c0' %}text").unwrap();
-            let name = match entry { 0 => "c0", 1 => "child_blocks", _ => "child_plain" };
-            progress(&format!("inheritance cycle of length {len}, members with blocks mask {mask:#b}, entered from {name}"));
-            let got = env.get_template(name).unwrap().render(());
-            assert!(got.is_err(), "cycle of length {len} (blocks mask {mask:#b}) entered from {name} rendered {got:?} instead of failing");
-        }}}
+            env.add_template_owned(format!("{dir}child_blocks"), "{% extends 'c0' %}{% block x %}child{% endblock %}".to_string()).unwrap();
+            env.add_template_owned(format!("{dir}child_plain"), "{% extends 'c0' %}text".to_string()).unwrap();
+            let name = format!("{dir}{}", match entry { 0 => "c0", 1 => "child_blocks", _ => "child_plain" });
+            progress(&format!("inheritance cycle of length {len}, members with blocks mask {mask:#b}, entered from {name}, path join callback: {joined}"));
+            let got = env.get_template(&name).unwrap().render(());
+            assert!(got.is_err(), "cycle of length {len} (blocks mask {mask:#b}) entered from {name} (path join callback: {joined}) rendered {got:?} instead of failing");
+        }}}}
         // acyclic block-less chains still render
         let mut env = Environment::new();
         env.add_template("root", "R[{% block x %}rx{% endblock %}]").unwrap();
